@@ -19,10 +19,10 @@ for p in props:
             'thorough_cmd': 'python3 vrun.py %s thorough' % pid,
             'evidence_file': 'evidence/%s.json' % pid,
             'replay_cmd_template': 'python3 vrun.py --replay {path}',
-            'engine': 'choice-sequence PBT (rapidcheck) under ASan+UBSan',
+            'engine': 'choice-sequence PBT (rapidcheck) and libFuzzer (thorough tier) under ASan+UBSan',
             'level_claimed': {'category': 'exploration', 'text': t.get('level', ''), 'design_ref': t.get('design_ref', 'DESIGN.md section 3 ' + pid)},
             'level_note': t.get('note', texts['_default_note']),
-            'technique': t.get('technique', 'property-based testing: rapidcheck-generated choice sequences decoded into inputs, explicit oracle, fork-isolated shrinking'),
+            'technique': t.get('technique', 'property-based testing and fuzzing: rapidcheck-generated (quick, thorough) and libFuzzer-mutated (thorough) choice sequences decoded into inputs, explicit oracle, fork-isolated shrinking, saved reproducers replayed first'),
         })
     else:
         na.append({'property_id': pid, 'reason': t.get('not_applicable', 'check not built yet (work in progress this round); no claim is made for this property')})
